@@ -563,6 +563,7 @@ func runC02(c *eng.Ctx) {
 	// (d) initializers registered under a name (addressable by key / usable as a dependency)
 	runC02NamedInitializers(c, next)
 	runC02BuildTimeScope(c, next)
+	runC02BackgroundDuringCreation(c, next)
 	// several resolutions of one scoped service in flight when the scope is closed
 	runWaiters(c, "C02", next)
 }
